@@ -1,9 +1,12 @@
 (* Eco/Alpm/Range.v — model of pkg/ecosystem/alpm/range.go *)
 From Verif.Base Require Import Bytes GoNum Ord.
+From Verif.Gen Require Operators.
 From Verif.Eco Require Import RangeCore.
 
 (* constraintPattern ^(>=|<=|>|<|=)?(.+)$ : alternatives in source order *)
-Definition alpm_ops : list bytes := [$">="; $"<="; $">"; $"<"; $"="].
+(* the list is generated from the Go source on every run (tools/gen -> Gen/Operators.v) *)
+Definition alpm_ops : list bytes :=
+  Eval cbv delta [Verif.Gen.Operators.alpm_ops] in Verif.Gen.Operators.alpm_ops.
 
 (* strings.Fields of the trimmed text, "and" (any case) skipped; a range made of "and"s only is
    accepted with no constraints; every bound goes through NewVersion at parse time; String()
